@@ -1058,7 +1058,10 @@ func (z *Decimal) SetFloat(x *big.Float) *Decimal {
 	if exp2 != 0 {
 		// multiply / divide by 2**exp with increased precision
 		z.prec++
-		t := new(Decimal).SetPrec(uint(z.prec))
+		// the power of two needs more digits than z: rounded to z.prec
+		// digits only, it pushed the result up to two units away from
+		// the correctly rounded value and spoiled exact conversions
+		t := new(Decimal).SetPrec(uint(z.prec) + _DW)
 		if exp2 < 0 {
 			if exp2 < MinExp {
 				// handle exponent overflow. Can only happen if exp2 < 0
@@ -1112,7 +1115,10 @@ func (z *Decimal) SetFloat64(x float64) *Decimal {
 	if exp2 != 0 {
 		// multiply / divide by 2**exp with increased precision
 		z.prec++
-		t := new(Decimal).SetPrec(uint(z.prec))
+		// the power of two needs more digits than z: rounded to z.prec
+		// digits only, it pushed the result up to two units away from
+		// the correctly rounded value and spoiled exact conversions
+		t := new(Decimal).SetPrec(uint(z.prec) + _DW)
 		if exp2 < 0 {
 			z = z.Quo(z, t.pow2(uint64(-exp2)))
 		} else {
